@@ -947,6 +947,11 @@ func featC11(m *gen.Mixed, ts *gen.TieSetup, p *modelParams) {
 					}
 				}
 			}
+			if ver == 1 && (h-e.Pegnet)%2 == 0 && len(s.OPR) > 24 {
+				// the first grading version has 10 winners, every later one 25: a block with 10..24 records is a
+				// paying block there and an unrated one ever after
+				s.OPR = s.OPR[:10+rng.Intn(15)]
+			}
 			switch rng.Intn(10) {
 			case 8: // staking records whose staker id is not a 32-byte address: a holder's address with a
 				// trailing byte, cut short by one byte, or empty — signed by that holder, valid otherwise.
